@@ -1,4 +1,5 @@
 import PcfgVerif.Properties.PQCore
+import PcfgVerif.Lemmas.TrainedWF
 import PcfgVerif.Lemmas.SoftFloatLemmas
 /-!
 # C02 — every pre-terminal of the grammar is emitted exactly once
@@ -59,5 +60,14 @@ example : Pcfg.Example.final0.popped.Perm (allNodes Pcfg.Example.g0) :=
 
 example : [(⟨0, [0, 0]⟩ : Node), ⟨0, [0, 1]⟩, ⟨0, [1, 0]⟩, ⟨0, [1, 1]⟩].Perm (allNodes Pcfg.Example.g0) :=
   (C02_exactly_once natAlg _ Pcfg.Example.wf0 _ Pcfg.Example.reach0').2.2 rfl
+
+/-- **C02 for trained rulesets over binary64, without a well-formedness hypothesis** (`TrainedCols`: every column loaded from a list file
+the trainer wrote, see `C01_trained_order`): every pre-terminal exactly once, none skipped, for every tie-breaking of the heap -/
+theorem C02_trained_exactly_once (parseP : CPs → Option Nat) (showP : Nat → CPs) (neg1 : Nat)
+    (hround : ∀ p, parseP (showP p) = some p) (hshow : ∀ p, CleanProb (showP p)) (g : Grid Nat)
+    (hcols : TrainedCols parseP showP neg1 g) (s : PQState) (h : Reach sfAlg.toPOps g (initNodes g) s) :
+    (s.popped ++ s.queue).Nodup ∧ (∀ v ∈ s.popped ++ s.queue, ValidNode g v) ∧
+      (s.queue = [] → s.popped.Perm (allNodes g)) :=
+  C02_exactly_once_binary64 g (trained_grid_wf parseP showP neg1 hround hshow g hcols) s h
 
 end Pcfg.C02
